@@ -8,31 +8,60 @@
 From ZV Require Import Prelude Ledger LedgerProofs Mailbox MailboxProofs.
 Open Scope Z_scope.
 
+(* The receiver rule has two regimes (verifier.ReceiverMismatchEnforcementHeight = E, compared by fromHash() with the height
+   of the node's frontier momentum; model: [enforced E n]).  E is a parameter of every statement.  E <= 1 is a chain that
+   enforces the rule from its genesis momentum on (what the statement of C04 describes: "only by the account it was
+   addressed to").  For E above that, the code keeps, and the theorems state, what remains true in BOTH regimes:
+   the received marker is the receiving account's own, so one account never receives a send twice; a receiving block of
+   a non-addressee is a user block that acknowledges a momentum below E; among blocks acknowledging E or later a send is
+   received at most once, by its addressee; contract inboxes are strict FIFO. *)
+
 (* every event keeps the invariant: candidate blocks (accepted or not, inserted or not, on top of the pool or replacing
-   unconfirmed blocks), momentums, rollbacks, restarts *)
-Theorem C04_event_preserves : forall n e n' c,
-  WFN n -> step_node true n e = (n', c) -> WFN n'.
+   unconfirmed blocks), momentums, rollbacks (also back below the enforcement height), restarts *)
+Theorem C04_event_preserves : forall E n e n' c,
+  WFN E n -> step_node E n e = (n', c) -> WFN E n'.
 Proof. exact step_node_wf. Qed.
 
-(* over the whole life of a chain, for every event sequence: a send has at most one receiving block on chain + pool *)
-Theorem C04_at_most_once : forall es h,
-  (length (receivers h (blocks_of (run_node true genesis_node es))) <= 1)%nat.
-Proof. intros es h. apply at_most_once. apply run_node_wf. exact WFN_genesis. Qed.
+(* over the whole life of a chain that enforces the receiver from genesis on, for every event sequence: a send has at
+   most one receiving block on chain + pool *)
+Theorem C04_at_most_once : forall E es h, E <= 1 ->
+  (length (receivers h (blocks_of (run_node E genesis_node es))) <= 1)%nat.
+Proof. intros E es h LE. apply (at_most_once E); [exact LE|]. apply run_node_wf. apply WFN_genesis. Qed.
 
 (* ... and that block belongs to the account the send is addressed to; the send is a confirmed block *)
-Theorem C04_only_addressee : forall es b h,
-  let n := run_node true genesis_node es in
+Theorem C04_only_addressee : forall E es b h, E <= 1 ->
+  let n := run_node E genesis_node es in
   In b (blocks_of n) -> b_kind b = BRecv h ->
   exists from, find_csend h (conf_sends (chain n)) = Some (from, b_addr b).
-Proof. intros es b h n. apply only_addressee. apply run_node_wf. exact WFN_genesis. Qed.
+Proof. intros E es b h LE n. apply (only_addressee E); [exact LE|]. apply run_node_wf. apply WFN_genesis. Qed.
+
+(* ANY enforcement height (legacy regime, switch-over in the middle of the history, rollbacks across it):
+   one account never has two blocks receiving the same send *)
+Theorem C04_once_per_account : forall E es a h,
+  (length (receivers_by a h (blocks_of (run_node E genesis_node es))) <= 1)%nat.
+Proof. intros E es a h. apply (once_per_account E). apply run_node_wf. apply WFN_genesis. Qed.
+
+(* ... every receiving block refers to a confirmed send and belongs to its addressee, or is a user block acknowledging a
+   momentum below the enforcement height *)
+Theorem C04_receiver_rule : forall E es b h,
+  let n := run_node E genesis_node es in
+  In b (blocks_of n) -> b_kind b = BRecv h ->
+  exists from to, find_csend h (conf_sends (chain n)) = Some (from, to) /\
+                  (to = b_addr b \/ (is_emb (b_addr b) = false /\ 1 <= b_ma b < E)).
+Proof. intros E es b h n. apply (receiver_rule E). apply run_node_wf. apply WFN_genesis. Qed.
+
+(* ... and among the blocks that acknowledge the enforcement height or a later momentum a send is received at most once *)
+Theorem C04_at_most_once_from_enforcement : forall E es h,
+  (length (receivers_from E h (blocks_of (run_node E genesis_node es))) <= 1)%nat.
+Proof. intros E es h. apply at_most_once_from_enforcement. apply run_node_wf. apply WFN_genesis. Qed.
 
 (* every contract receives exactly a prefix of the sends addressed to it, in confirmation order: nothing skipped,
-   nothing repeated — also after replacement, reorganisation and restart *)
-Theorem C04_fifo : forall es c,
-  let n := run_node true genesis_node es in
+   nothing repeated — also after replacement, reorganisation and restart, in both regimes *)
+Theorem C04_fifo : forall E es c,
+  let n := run_node E genesis_node es in
   is_emb c = true ->
   prefix (recvs_of c (blocks_of n)) (inbox_at c (chain n)) /\ NoDup (recvs_of c (blocks_of n)).
-Proof. intros es c n. apply fifo. apply run_node_wf. exact WFN_genesis. Qed.
+Proof. intros E es c n. apply (fifo E). apply run_node_wf. apply WFN_genesis. Qed.
 
 (* the decision of fromHash() + sequencer(): accepted only if the send exists in the acknowledged momentum's store,
    is addressed to the receiver, is not marked received, and for a contract is the next in line *)
@@ -51,10 +80,24 @@ Proof.
     apply Z.eqb_eq in E; subst. auto.
   - intros _. repeat split; auto. discriminate.
 Qed.
+(* ... below the enforcement height: the send exists, THIS account has not received it, a contract takes the next in line *)
+Theorem C04_recv_check_sound_legacy : forall a h sendto received next,
+  recv_check false a h sendto received next = 0 ->
+  (exists to, sendto = Some to) /\ received = false /\ (is_emb a = true -> next = Some h).
+Proof.
+  intros a h sendto received next. unfold recv_check.
+  destruct sendto as [to|]; [|unfold E_FROM_MISSING; discriminate].
+  cbn [andb]. destruct received; [unfold E_ALREADY; discriminate|].
+  destruct (is_emb a).
+  - destruct next as [h'|]; [|unfold E_SEQ_NOTHING; discriminate].
+    destruct (h' =? h) eqn:E; [|unfold E_SEQ_NOT_NEXT; discriminate].
+    apply Z.eqb_eq in E; subst. eauto.
+  - intros _. repeat split; eauto. discriminate.
+Qed.
 
 (* record: below the enforcement height two different accounts could receive one send (protocol history) *)
 Theorem C04_pre_enforcement_refuted :
-  length (receivers 1000 (blocks_of (run_node false genesis_node pre_enf_events))) = 2%nat.
+  length (receivers 1000 (blocks_of (run_node 100 genesis_node pre_enf_events))) = 2%nat.
 Proof. exact pre_enforcement_two_receivers. Qed.
 
 (* non-vacuity: competing receives (same account, other account), out-of-order contract receive, replacement of an
@@ -75,7 +118,31 @@ Definition ex_events : list event :=
     ERollback;
     EBlock 99 true (mkBlk 1011 101 (BRecv 1000) 2 []) ].
 Example C04_history_example :
-  let '(codes, n) := run_codes true genesis_node ex_events in
+  let '(codes, n) := run_codes 0 genesis_node ex_events in
   codes = [0; 0; 0; 0; 0; E_ALREADY; E_MISMATCH; E_SEQ_NOT_NEXT; 0; 0; 0; 0; 0; 0] /\
   map b_hash (receivers 1000 (blocks_of n)) = [1011] /\ inbox_at 2 (chain n) = [1002; 1001] /\ recvs_of 2 (blocks_of n) = [].
+Proof. vm_compute. repeat split; reflexivity. Qed.
+
+(* non-vacuity across the switch-over (enforcement height 3): before it account 102, not the addressee, receives send
+   1000 once and is refused a second time; after it 102 is refused send 1001 as a non-addressee, the addressee 101 still
+   receives 1000; a rollback takes the node back below the enforcement height, where 103 may receive 1000 as well *)
+Definition ex_switch_events : list event :=
+  [ EBlock 99 true (mkBlk 1000 100 (BSend 101) 1 []);
+    EBlock 99 true (mkBlk 1001 100 (BSend 101) 1 []);
+    EMomentum [1000; 1001];
+    EBlock 99 true (mkBlk 1002 102 (BRecv 1000) 2 []);
+    EBlock 99 true (mkBlk 1003 102 (BRecv 1000) 2 []);
+    EMomentum [1002];
+    EBlock 99 true (mkBlk 1004 102 (BRecv 1001) 3 []);
+    EBlock 99 true (mkBlk 1005 102 (BRecv 1000) 3 []);
+    EBlock 99 true (mkBlk 1006 101 (BRecv 1000) 3 []);
+    EMomentum [1006];
+    ERollback; ERollback;
+    EBlock 99 true (mkBlk 1007 103 (BRecv 1000) 2 []) ].
+Example C04_switch_over_example :
+  let '(codes, n) := run_codes 3 genesis_node ex_switch_events in
+  codes = [0; 0; 0; 0; E_ALREADY; 0; E_MISMATCH; E_MISMATCH; 0; 0; 0; 0; 0] /\
+  map b_hash (receivers 1000 (blocks_of n)) = [1007] /\
+  map b_hash (receivers 1000 (blocks_of (run_node 3 genesis_node (firstn 10 ex_switch_events)))) = [1002; 1006] /\
+  map b_hash (receivers_from 3 1000 (blocks_of (run_node 3 genesis_node (firstn 10 ex_switch_events)))) = [1006].
 Proof. vm_compute. repeat split; reflexivity. Qed.
